@@ -14,7 +14,7 @@ def strip_refs(s):
 class C13(Prop):
     pid = "C13"
     title = "version information is reported completely and unaltered"
-    thm_modules = ["PeliteModel.Thm.C13", "PeliteModel.Thm.C13Queries"]
+    thm_modules = ["PeliteModel.Thm.C13", "PeliteModel.Thm.C13Queries", "PeliteModel.Thm.ImageLayout"]
     gens = [gen_version.gen_wellformed, gen_version.gen_layouts, gen_version.gen_variants, gen_version.gen_corrupt,
             gen_version.gen_small, gen_version.gen_langparse, gen_version.gen_zero_records]
 
